@@ -103,8 +103,8 @@ class C15(Property):
       nk = 4 if small else len(KEYS)
       nv = 3 if small else len(VALS)
       for _ in range(n):
-        op = W.weighted("op", [(5, "set"), (3, "sett"), (3, "del"),
-                               (1, "gett"), (1, "rebuild")])
+        op = W.weighted("op", [(10, "set"), (6, "sett"), (6, "del"),
+                               (2, "gett"), (2, "rebuild"), (1, "copycon")])
         if op == "set":
           ops.append(["set", W.choose("k", nk), W.choose("v", nv)])
         elif op == "sett":
@@ -116,11 +116,18 @@ class C15(Property):
         elif op == "gett":
           m = W.span("tl", 1, 3)
           ops.append(["gett", [W.choose("k", nk) for _ in range(m)]])
+        elif op == "copycon":
+          ops.append(["copycon"])
         else:
           m = W.span("nd", 0, 5)
-          ops.append(["rebuild", [[W.choose("k", nk), W.choose("v", nv)]
-                                  for _ in range(m)],
-                      W.choose("kw", 2)])
+          pairs = []
+          for _ in range(m):
+            if W.chance("tuplekey", 1, 4):
+              key = [W.choose("k", nk) for _ in range(W.span("tl", 1, 3))]
+            else:
+              key = W.choose("k", nk)
+            pairs.append([key, W.choose("v", nv)])
+          ops.append(["rebuild", pairs, W.choose("kw", 2)])
     else:
       nn = 3 if small else len(NAMES)
       nf = 3 if small else N_STRATS
@@ -153,6 +160,9 @@ class C15(Property):
                               ["set", 10, 6], ["set", 11, 1], ["del", 1]]},
       {"kind": "mkd", "ops": [["rebuild", [[1, 4], [2, 5], [3, 4]], 0],
                               ["del", 2], ["del", 3], ["del", 3]]},
+      {"kind": "mkd", "ops": [["rebuild", [[[1, 2], 3], [4, 3], [[2, 0], 1]],
+                               0], ["copycon"], ["set", 1, 1], ["copycon"],
+                              ["del", 4]]},
       {"kind": "sd", "ops": [["strategy", [0], 0, 0], ["strategy", [1, 2], 1,
                                                      0], ["call", 1],
                              ["del", 0], ["set", 3, 2], ["call", 0]]},
@@ -204,8 +214,12 @@ class C15(Property):
         elif op[0] == "gett":
           out.append("d[%r]" % (tuple(KEYS[k] for k in op[1]),))
         else:
-          out.append("d = MultiKeyDict(%r)" % ([(KEYS[k], VALS[v])
-                                                for k, v in op[1]],))
+          if op[0] == "copycon":
+            out.append("d = MultiKeyDict(d)")
+            continue
+          out.append("d = MultiKeyDict(%r)" % (
+            [(tuple(KEYS[x] for x in k) if isinstance(k, list) else KEYS[k],
+              VALS[v]) for k, v in op[1]],))
     else:
       for op in workload["ops"]:
         if op[0] == "strategy":
@@ -252,8 +266,16 @@ class C15(Property):
         keys = tuple(KEYS[k] for k in op[1])
         self._same_outcome(lambda: d[keys], lambda: m.get_tuple(keys),
                            "getitem-tuple", "d[%r]" % (keys,))
+      elif name == "copycon":
+        try:
+          d = self.core.MultiKeyDict(d)
+        except Exception as exc:
+          raise _Mismatch("unexpected-exception", "construct",
+                          "MultiKeyDict(<MultiKeyDict>) raised %r" % (exc,))
+        mutating += 1
       elif name == "rebuild":
-        pairs = [(KEYS[k], VALS[v]) for k, v in op[1]]
+        pairs = [(tuple(KEYS[x] for x in k) if isinstance(k, list)
+                  else KEYS[k], VALS[v]) for k, v in op[1]]
         src = {}
         for k, v in pairs:
           src[k] = v
